@@ -544,6 +544,8 @@ def pathNoFloat (loc : List String) (m : CMethod) (p : CPath) : Bool :=
 
 /-- every C array allocated on the path is freed on it -/
 def pathArraysFreed (loc : List String) (m : CMethod) (p : CPath) : Bool :=
+  -- (a path without `alloc` has nothing to free: not run again)
+  !p.events.any (fun e => match e with | .alloc .. => true | _ => false) ||
   match runPath loc false m.returnsNode [] p.events with
   | .arrayLeak _ => false
   | _ => true
